@@ -10,6 +10,7 @@ from ..pools import Rng
 
 SET_ATOMS = ['"a" in extras', '"b" not in extras', '"A_b" in extras', '"g1" in dependency_groups', '"g2" not in dependency_groups']
 LOCK_ENVS = [{"extras": set(), "dependency_groups": set()}, {"extras": {"a"}, "dependency_groups": {"g1"}}, {"extras": {"a-b", "b"}, "dependency_groups": {"G2"}},
+             {"extras": {"A", "a_B"}, "dependency_groups": {"G1", "g2"}}, {"extras": {"A__b", "B"}, "dependency_groups": {"G.1"}},      # members spelt in non-canonical form
              {"extras": {"A.B"}, "dependency_groups": {"g1", "g2"}}]
 
 
